@@ -175,6 +175,12 @@ func propC04(r *kernel.Run) {
 		}
 		req.RewrappedWrappingRegistrationFlowInfo = b
 		req.RewrappingKeyId = keyID(interCreds.CertificatePublicKeyPkix)
+		if tp.Draw(2) == 0 {
+			// the server may have a registration wrapper of its own (another KMS than the edge's)
+			srv.RW = newAead(r, "server-own-registration-wrapper")
+			fetchOpts = srv.Opts()
+			r.Count("cfg.rewrapped_with_server_own_registration_wrapper", 1)
+		}
 		if state != nil {
 			fetchOpts = append(fetchOpts, nodeenrollment.WithState(state))
 		}
